@@ -803,3 +803,88 @@ Qed.
 Lemma match_total_both : forall h c, body_ok c ->
   matches h c = Ok (matches_b h c) /\ prematches h c = Ok (prematches_b h c).
 Proof. intros h c H; split; [exact (matches_total h c H) | exact (prematches_total h c H)]. Qed.
+
+(* ---------------------------------------------------------------------------------------- *)
+(* 13. de-duplication is about ANY position, not about neighbours                            *)
+(* ---------------------------------------------------------------------------------------- *)
+Inductive subseq {A} : list A -> list A -> Prop :=
+| sub_nil : subseq [] []
+| sub_skip : forall x l m, subseq l m -> subseq l (x :: m)
+| sub_keep : forall x l m, subseq l m -> subseq (x :: l) (x :: m).
+
+Lemma dedup_from_subseq : forall hs seen, subseq (dedup_from seen hs) hs.
+Proof.
+  induction hs as [|x hs IH]; intros seen; cbn; [constructor|].
+  destruct (existsb (hkey_eqb (hkey_of x)) seen); [apply sub_skip | apply sub_keep]; apply IH.
+Qed.
+
+(* every survivor sits at the first position of its key *)
+Lemma dedup_from_is_first : forall hs seen h,
+  In h (dedup_from seen hs) ->
+  exists pre post, hs = pre ++ h :: post /\ ~ In (hkey_of h) (map hkey_of pre) /\ ~ In (hkey_of h) seen.
+Proof.
+  induction hs as [|x hs IH]; intros seen h H; cbn in H; [contradiction|].
+  destruct (existsb (hkey_eqb (hkey_of x)) seen) eqn:E.
+  - destruct (IH _ _ H) as (pre & post & -> & Hp & Hs).
+    exists (x :: pre), post. split; [reflexivity|]. split; [|assumption].
+    cbn. intros [Heq|Hin]; [|contradiction]. apply Hs. rewrite <- Heq. now apply seen_in.
+  - destruct H as [<-|H].
+    + exists [], hs. split; [reflexivity|]. split; [intros []|]. intro Hin. apply seen_in in Hin. congruence.
+    + destruct (IH _ _ H) as (pre & post & -> & Hp & Hs).
+      exists (x :: pre), post. split; [reflexivity|]. split.
+      * cbn. intros [Heq|Hin]; [|contradiction]. apply Hs. now left.
+      * intro Hin. apply Hs. now right.
+Qed.
+
+Definition occurrences (k : hkey) (l : list hdecl) : nat :=
+  List.length (filter (fun h => hkey_eqb (hkey_of h) k) l).
+
+Lemma occurrences_nodup : forall l k,
+  NoDup (map hkey_of l) -> In k (map hkey_of l) -> occurrences k l = 1%nat.
+Proof.
+  unfold occurrences. induction l as [|x l IH]; intros k Hnd Hin; cbn in *; [contradiction|].
+  inversion Hnd as [|? ? Hnotin Hnd']; subst.
+  destruct (hkey_eqb (hkey_of x) k) eqn:E.
+  - apply hkey_eqb_eq in E. subst k. cbn. f_equal.
+    assert (Hnone : forall m, ~ In (hkey_of x) (map hkey_of m) ->
+                              filter (fun h => hkey_eqb (hkey_of h) (hkey_of x)) m = []).
+    { induction m as [|y m IHm]; intro Hm; cbn; [reflexivity|].
+      destruct (hkey_eqb (hkey_of y) (hkey_of x)) eqn:E2.
+      - apply hkey_eqb_eq in E2. exfalso. apply Hm. left. assumption.
+      - apply IHm. intro Hin'. apply Hm. now right. }
+    rewrite (Hnone l Hnotin). reflexivity.
+  - destruct Hin as [Heq|Hin].
+    + subst k. assert (hkey_eqb (hkey_of x) (hkey_of x) = true) by now apply hkey_eqb_eq. congruence.
+    + apply IH; assumption.
+Qed.
+
+(* wherever and however often a (function, id) pair is registered: exactly one entry, the one at its first position,
+   in the order of registration *)
+Theorem dedup_any_position : forall l,
+  subseq (deduplicated l) l /\
+  (forall h, In h (deduplicated l) <->
+             exists pre post, l = pre ++ h :: post /\ ~ In (hkey_of h) (map hkey_of pre)) /\
+  (forall h, In h l -> occurrences (hkey_of h) (deduplicated l) = 1%nat).
+Proof.
+  intro l. destruct (dedup_spec l) as (Hnd & Hin & Hkeys & _ & Hfirst).
+  split; [apply dedup_from_subseq|]. split.
+  - intro h. split.
+    + intro H. destruct (dedup_from_is_first l [] h H) as (pre & post & E & Hp & _). eauto.
+    + intros (pre & post & E & Hp). eapply Hfirst; eauto.
+  - intros h H. apply occurrences_nodup; [assumption|]. apply Hkeys. now apply in_map.
+Qed.
+
+(* non-adjacent repetitions: [A; B; A], [A; B; A; B], [A; B; C; A] with update + resume registrations of one function *)
+Definition ex_A (k : dkind) : hdecl := decorate k "a" 0 ex_sel [] [] None None CNone CNone CNone.
+Definition ex_B (k : dkind) : hdecl := decorate k "b" 1 ex_sel [] [] None None CNone CNone CNone.
+Definition ex_downtime_update : cause :=
+  {| c_class := CChanging; c_resource := ex_resource; c_body := ex_body (Some (JNum 2));
+     c_old := Some (ex_spec (Some (JNum 1))); c_new := Some (ex_spec (Some (JNum 2))); c_reason := RUpdate; c_initial := true |}.
+Lemma ex_dedup_nonadjacent :
+  rids (get_handlers [] [ex_A DUpdate; ex_B DUpdate; ex_A (DResume false)] ex_downtime_update) = Ok ["a"; "b"] /\
+  rids (get_handlers [] [ex_A DUpdate; ex_B DUpdate; ex_A (DResume false); ex_B (DResume false)] ex_downtime_update) = Ok ["a"; "b"] /\
+  rids (get_handlers [] [ex_A DUpdate; ex_B DUpdate; ex_B DField; ex_A DUpdate; ex_A (DResume false)] ex_downtime_update) = Ok ["a"; "b"] /\
+  (* same id, another function: both stay *)
+  rids (get_handlers [] [ex_A DUpdate; decorate DUpdate "a" 1 ex_sel [] [] None None CNone CNone CNone; ex_A (DResume false)]
+                     ex_downtime_update) = Ok ["a"; "a"].
+Proof. repeat split; reflexivity. Qed.
